@@ -194,3 +194,109 @@ pub fn distances(seed: u64) -> Verdict {
     }
     Verdict::Hold
 }
+
+/// Brakedown: the library's iterative encoder against the paper's recursion (`bdref::encode_ref`) on a fully
+/// symbolic message: equal symbol by symbol, systematic, and of the declared length ceil(r*m).
+pub fn brakedown_encode_ref<S: Sch<PC = BrakedownPC, P = ML>>(cfg: &Cfg) -> Verdict {
+    use super::bdref;
+    use ark_poly_commit::linear_codes::MultilinearBrakedown;
+    type L = MultilinearBrakedown<SF, RoMT, ML, crate::engine::ro::RoColHash>;
+    let w = match build::<S>(cfg) {
+        Ok(w) => w,
+        Err(v) => return v,
+    };
+    let p = match bdref::mirror(&w.ck) {
+        Ok(p) => p,
+        Err(e) => return Verdict::Discard(format!("driver: {}", e)),
+    };
+    let (n_rows, n_cols, n_ext, _) = w.comms[0].commitment().parts();
+    if n_cols != p.m || n_rows != p.n || n_ext != p.m_ext {
+        return Verdict::viol("shape", format!("commitment metadata ({}, {}, {}) differs from the parameters' (n, m, m_ext) = ({}, {}, {})", n_rows, n_cols, n_ext, p.n, p.m, p.m_ext));
+    }
+    if p.m_ext != bdref::ceil_mul(p.m, p.rho_inv) {
+        return Verdict::viol("codeword-length", format!("declared codeword length {} for messages of length {}: the code has length ceil(r*m) = {}", p.m_ext, p.m, bdref::ceil_mul(p.m, p.rho_inv)));
+    }
+    let x: Vec<SF> = (0..p.m).map(|i| sym(&format!("x{}", i))).collect();
+    let lib = match catch(|| <L as LinearEncode<SF, RoMT, ML, crate::engine::ro::RoColHash>>::encode(&x, &w.ck)) {
+        Ok(Ok(c)) => c,
+        Ok(Err(e)) => return Verdict::viol("encode-err", format!("{:?}", e)),
+        Err(e) => return Verdict::viol("encode-panic", e),
+    };
+    let reference = match bdref::encode_ref(&p, &x, 0) {
+        Ok(c) => c,
+        Err(e) => return Verdict::viol("code-structure", e),
+    };
+    if lib.len() != reference.len() || lib.len() != p.m_ext {
+        return Verdict::viol("encode-length", format!("encode returned {} symbols, the reference {} and the declared length is {}", lib.len(), reference.len(), p.m_ext));
+    }
+    for k in 0..lib.len() {
+        if lib[k] != reference[k] {
+            return Verdict::viol("encode-differs", format!("codeword symbol {} differs from the recursive encoder's (message length {}, {} recursion levels)", k, p.m, p.a_mats.len()));
+        }
+    }
+    // a message of another length is refused
+    let short: Vec<SF> = x[..p.m - 1].to_vec();
+    if let Ok(Ok(_)) = catch(|| <L as LinearEncode<SF, RoMT, ML, crate::engine::ro::RoColHash>>::encode(&short, &w.ck)) {
+        return Verdict::viol("encode-wrong-length-accepted", "encode accepted a message shorter than the declared message length");
+    }
+    Verdict::Hold
+}
+
+/// Brakedown parameter generation (input-free apart from the RNG seed; concrete): the recursion's dimension
+/// chain, exactly d non-zero entries per row in distinct columns, non-zero values, and the density of the A
+/// matrices against fig. 2's c_n.
+pub fn brakedown_matrices(seed: u64, nvs: &[usize]) -> Verdict {
+    use super::bdref;
+    use ark_poly_commit::linear_codes::BrakedownPCParams;
+    use ark_std::rand::{rngs::StdRng, SeedableRng};
+    for &nv in nvs {
+        for s in 0..3u64 {
+            let pp: BrakedownPCParams<SF, RoMT, crate::engine::ro::RoColHash> = BrakedownPCParams::default(&mut StdRng::seed_from_u64(seed.wrapping_mul(77).wrapping_add(s)), 1 << nv, true, (), (), ());
+            let p = match bdref::mirror(&pp) {
+                Ok(p) => p,
+                Err(e) => return Verdict::Discard(format!("driver: {}", e)),
+            };
+            if p.n * p.m < (1 << nv) {
+                return Verdict::viol("matrix-too-small", format!("{} variables: a {}x{} coefficient matrix", nv, p.n, p.m));
+            }
+            // the dimension chain is what the recursion on a zero message checks
+            let zero = vec![SF::zero(); p.m];
+            if let Err(e) = bdref::encode_ref(&p, &zero, 0) {
+                return Verdict::viol("code-structure", format!("{} variables: {}", nv, e));
+            }
+            if p.a_dims.len() != p.a_mats.len() || p.b_dims.len() != p.b_mats.len() {
+                return Verdict::viol("code-structure", "dimension lists and matrix lists differ in length");
+            }
+            for (which, mats, dims) in [("A", &p.a_mats, &p.a_dims), ("B", &p.b_mats, &p.b_dims)] {
+                for (lvl, mat) in mats.iter().enumerate() {
+                    if (mat.n, mat.m, mat.d) != dims[lvl] {
+                        return Verdict::viol("code-structure", format!("{}_{} is {}x{} with density {}, its dimension record says {:?}", which, lvl, mat.n, mat.m, mat.d, dims[lvl]));
+                    }
+                    let d = match mat.dense() {
+                        Ok(d) => d,
+                        Err(e) => return Verdict::viol("sparse-matrix", format!("{}_{}: {}", which, lvl, e)),
+                    };
+                    if mat.d == 0 || mat.d > mat.m {
+                        return Verdict::viol("row-density", format!("{}_{}: density {} for {} columns", which, lvl, mat.d, mat.m));
+                    }
+                    for (i, row) in d.iter().enumerate() {
+                        let nz = row.iter().filter(|e| e.is_some()).count();
+                        if nz != mat.d {
+                            return Verdict::viol("row-density", format!("{} variables, {}_{}: row {} has {} entries, the declared density is {}", nv, which, lvl, i, nz, mat.d));
+                        }
+                        if row.iter().any(|e| matches!(e, Some(v) if v.v.is_zero())) {
+                            return Verdict::viol("row-density", format!("{}_{}: row {} stores a zero entry", which, lvl, i));
+                        }
+                    }
+                    if which == "A" {
+                        let want = core::cmp::min(bdref::paper_cn(mat.n, p.alpha, p.beta), mat.m);
+                        if mat.d != want {
+                            return Verdict::viol("row-density", format!("{} variables, A_{} ({}x{}): density {} but c_n = {}", nv, lvl, mat.n, mat.m, mat.d, want));
+                        }
+                    }
+                }
+            }
+        }
+    }
+    Verdict::Hold
+}
